@@ -69,6 +69,10 @@ func runCase(line string) (string, string) {
 	id := f[1]
 	switch f[0] {
 	case "AS":
+		if ts, isTLS := isTLSSuite(f[2]); isTLS && len(f) == 5 {
+			r, d := runASTLS(ts, f[3], f[4])
+			return id + " " + r, d
+		}
 		suite, ok := parseSuite(f[2])
 		if len(f) != 5 || !ok {
 			break
@@ -76,6 +80,11 @@ func runCase(line string) (string, string) {
 		r, d := runAS(suite, f[3], f[4])
 		return id + " " + r, d
 	case "AC":
+		if ts, isTLS := isTLSSuite(f[2]); isTLS && len(f) == 5 {
+			auth, _ := strconv.Atoi(f[4])
+			r, d := runACTLS(ts, f[3], auth)
+			return id + " " + r, d
+		}
 		suite, ok := parseSuite(f[2])
 		if len(f) != 5 || !ok {
 			break
@@ -88,6 +97,9 @@ func runCase(line string) (string, string) {
 		return id + " " + r, d
 	case "PD":
 		r, d := hx.Guard(pDeadline, func() string { return runPD(f) })
+		return id + " " + r, d
+	case "AV":
+		r, d := runAV(f)
 		return id + " " + r, d
 	case "AN":
 		suite, ok := parseSuite(f[2])
